@@ -943,15 +943,19 @@ func c01SeenCount(key string) int {
 
 // waits until the implementation has been invoked `want` times with this key (one-way calls return at once)
 func c01AwaitSeen(key string, want int) bool {
-	dl := time.Now().Add(20 * time.Second)
+	dl := time.Now().Add(c01WaitLimit)
 	for time.Now().Before(dl) {
 		if c01SeenCount(key) >= want {
 			return true
 		}
 		time.Sleep(2 * time.Millisecond)
 	}
+	c01WaitLimit = 2 * time.Second // once something did not arrive within 20 s the later waits need not be as patient
 	return false
 }
+
+// how long the child waits for the server side of a call to show up after the call has returned
+var c01WaitLimit = 20 * time.Second
 
 var c01CaseStart int64
 
@@ -1076,14 +1080,20 @@ func c01ChildMain(inPath, outPath string) {
 		}
 		// expected implementation invocations of this batch, per key
 		want := map[string]int{}
+		wantOneWay := map[string]bool{}
 		for i, p := range preps {
-			_ = i
 			want[p.key]++
+			if cs.Calls[i].OneWay {
+				wantOneWay[p.key] = true
+			}
 		}
 		for key, n := range want {
 			expectSeen[key] += n
-			if !c01AwaitSeen(key, before[key]+n) {
-				addFail(ci, "e2e/invocations/missing", fmt.Sprintf("the implementation was invoked %d times with the inputs of %d call(s) of this batch (waited 20 s): %s", c01SeenCount(key)-before[key], n, trunc200(key)))
+			if c01SeenCount(key) >= before[key]+n {
+				continue
+			}
+			if !wantOneWay[key] || !c01AwaitSeen(key, before[key]+n) { // a normal call returns after the implementation ran
+				addFail(ci, "e2e/invocations/missing", fmt.Sprintf("the implementation was invoked %d times with the inputs of %d call(s) of this batch: %s", c01SeenCount(key)-before[key], n, trunc200(key)))
 			}
 		}
 		hasOneWay := false
@@ -1096,15 +1106,20 @@ func c01ChildMain(inPath, outPath string) {
 			// a one-way call returns before the server has run: wait for the server side to finish (all expected
 			// events logged), then a little longer so that a (wrong) second delivery or reply would show up
 			wantEv := len(preps) * len(c01ExpectedFilterEvents(cfg, true))
-			dl := time.Now().Add(20 * time.Second)
+			dl := time.Now().Add(c01WaitLimit)
+			arrived := false
 			for time.Now().Before(dl) {
 				c01Mu.Lock()
 				n := len(c01Log) - logStart
 				c01Mu.Unlock()
 				if n >= wantEv {
+					arrived = true
 					break
 				}
 				time.Sleep(2 * time.Millisecond)
+			}
+			if !arrived {
+				c01WaitLimit = 2 * time.Second
 			}
 			time.Sleep(15 * time.Millisecond)
 		}
